@@ -1,4 +1,10 @@
 TEXT = {
+    "C06": {
+        "level": "Machine-checked proof (Coq): the cache key is injective in (method, host, URI) for all space-free methods and hosts (guard shown necessary), so GET/HEAD, hosts and URIs differing in one byte never share a key; for every hash function (collisions included), size and history of lookups/removals/evictions the dispatcher model returns for key k an entry created for exactly k and entry identities are never shared. Tied to the code by differential runs: exact key bytes of the real getKey on near-colliding requests, and real dispatcher runs with keys forced into one shard of a tiny cache (entry identity vs model; monitor: an entry is only ever returned for the key it was created for). The statement that a stored response is only replayed for its own key at system level is proved over the entry-protocol model (per-entry heap, C01 ff.).",
+        "note": "Trusted: Coq kernel + vm_compute; hand-written models of getKey and dispatcher.go (tied by correspondence); net/http guarantees space-free method/host; memory safety of the zero-copy key conversion is outside the model. No axioms.",
+        "technique": "Coq proof: injectivity lemma + dispatcher invariant (ownership of entries) by induction over op sequences; vm_compute differential replay with collision-forcing generator",
+        "design_ref": "DESIGN.md §7 C06",
+    },
     "C14": {
         "level": "Machine-checked proof (Coq): for every location list, every order sort.Slice may produce (any priority-ordered permutation), every host, URI and server location list, Locations.Get's model returns a configured location that the server lists and that matches host and URI, with no eligible location of a strictly better class; it returns none iff no location is eligible; priority order equals the documented class order for all weights with 0<host<prefix (instantiated per run with the weights regenerated from getPriority). Tied to the code by differential runs of the real NewLocations/Get over generated location sets x a host/URI universe, compared on (found?, class) and monitored for validity of the implementation's own choice.",
         "note": "Trusted: Coq kernel + vm_compute; hand-written model of location.go (tied by correspondence); sort.Slice assumed to return a permutation ordered by the comparison; the 503/no-upstream-contact consequence is exercised end to end under C15. No axioms.",
